@@ -27,6 +27,7 @@ NOTES = {
  "C19": "first missed; rule C19 R5 (the entry-slot counter advances on every entry line) added",
  "C25": "reported by the fail-closed floor (table match not found) at first; made precise by rule C25 R6 (table keyed by the full code point)",
  "C28": "first missed; rule C28 R4 (the sibling stride counts every descendant: must not read `open`) added",
+ "C04b": "round 2; first missed; rule C04 R6 (the object cache is filled only under the key that was asked for, or by an enumerated recovery routine) added",
  "C05b": "round 2; first missed; rule C05 R8 (variant filters in the decryption walker name all four string-bearing variants) added",
  "C08b": "round 2; caught by C08 R5 as first written (growth of the limited reader dominated by its limit test)",
  "C09b": "round 2; first missed; rule C09 G1 (Reference arms format number and generation) added",
